@@ -586,6 +586,7 @@ contract(
     # to one of the document's own sources (findDefault)
     requires=[f"any({_SRC}[a] == designSpaceDoc.default for a in range(len({_SRC})))"],
     sorted_axioms=True,
+    seq_positions=True,  # `x in sorted(..)` comes with a position witness (needed for: the default source is at position 0)
     ensures={
         # (deductive part: the function raises nothing - in particular sorted(..)[0] is the default source, the two
         # assertions hold, no index error; the two decision clauses are below, bounded)
